@@ -758,16 +758,16 @@ def rule_N4(ctx):
         from .util import regex_value
         pat, _fl = regex_value(ctx, rg.value, ctx.prog.module(ST), "N4", f"{ST}:Image.{name}")
         if want == "negated":
-            surv = rx.negated_class_plus(pat)
+            surv = rx.negated_class_plus(pat, _fl)
             ok = surv is not None and surv <= SAFE_EXPORT
             ctx.ob("N4", rg, f"{name} replaces every run of characters outside {{word, space, - . #}}", ok, f"survivors {sorted(surv) if surv else None}", inst=name)
         elif want == "ending":
-            t = rx.parse(pat)
+            t = rx.parse(pat, _fl)
             gs = rx.groups(t)
             ok = len(gs) == 1 and gs[0][2] == 0 and rx.is_lazy_any_plus(gs[0][1]) and rx.starts_with_space_star(t[1:]) and rx.ends_at_end(t)
             ctx.ob("N4", rg, f"{name} is `(shortest non-empty prefix)` followed by blanks / one dot / blanks to the end", ok, pat, inst=name)
         else:
-            t = rx.parse(pat)
+            t = rx.parse(pat, _fl)
             gs = rx.groups(t)
             ok = len(gs) == 3 and rx.is_lazy_any_star(gs[0][1]) and rx.ends_at_end(t)
             ctx.ob("N4", rg, f"{name} has three groups (stem, separator run, L|R) anchored at the end", ok, pat, inst=name)
@@ -1646,7 +1646,7 @@ def rule_N8(ctx):
     ok = False
     if pat is not None:
         import re._constants as sc
-        t = rx.parse(pat)
+        t = rx.parse(pat, _fl or 0)
         gs = rx.groups(t)
         ok = len(t) == 1 and len(gs) == 1
         if ok:
